@@ -448,7 +448,7 @@ def wide_cases(g, Ns, kind, elem="E", fault="none", suffix=("new",), layouts_per
             # large capacities: every case carries the whole contents; keep about 100 operations per layout
             ev = max(every, n // 100) if N > 1000 else every
             if N in STEERED:
-                ev = 1 if N <= 1000 else max(1, n // 150)
+                ev = 1 if N <= 1000 else max(1, n // 50)     # ~50 operations x 18 layouts per large steered capacity
             for k in range(n):
                 if ev > 1 and not r.chance(1, ev):
                     continue
